@@ -34,7 +34,7 @@ def run_check(pid, tier, seed, repo_src=None, update_ledger=False):
         print(f"CHECKER-ERROR property={pid} harness exception {type(e).__name__}: {e}")
         if chk is not None:
             chk.error("checker", f"harness exception {type(e).__name__}: {e}")
-            chk.finish()
+            return chk.finish()   # violations recorded before the harness failure are still reported (exit 1), else exit 3
         return 3
     rc = chk.finish()
     if update_ledger:
